@@ -7,6 +7,7 @@ package verifrt
 
 import (
 	"encoding/json"
+	"os/exec"
 	"fmt"
 	"math/rand"
 	"runtime"
@@ -480,5 +481,37 @@ func (v *T) Threads(bound int, fns ...func()) {
 	}
 	if s.diverge != "" {
 		v.missing = append(v.missing, "schedule diverged: "+s.diverge)
+	}
+}
+
+// Terminates runs f and fails the assertion id if f does not come back. Under the symbolic
+// executor a loop inside f that goes round more often than the loop bound allows is the
+// violation. Natively f runs in a child process (the test binary re-executed on the same draw
+// file; the harness must be deterministic up to this call) which is killed after a deadline, so
+// a runaway loop cannot take the replay down with it.
+func (v *T) Terminates(id string, f func()) {
+	const env = "VERIF_TERMINATES_CHILD"
+	if os.Getenv(env) == id {
+		f()
+		os.Exit(0)
+	}
+	if os.Getenv(env) != "" || v.File == "" {
+		f() // another Terminates call inside a child, or no draw file to hand over: run in place
+		return
+	}
+	cmd := exec.Command(os.Args[0], os.Args[1:]...)
+	cmd.Env = append(os.Environ(), env+"="+id, "VERIF_DRAWS="+v.File, "VERIF_ATTEMPTS=1")
+	if err := cmd.Start(); err != nil {
+		f()
+		return
+	}
+	done := make(chan error, 1)
+	go func() { done <- cmd.Wait() }()
+	select {
+	case <-done:
+	case <-time.After(8 * time.Second):
+		cmd.Process.Kill()
+		<-done
+		v.Assert(false, id)
 	}
 }
